@@ -126,7 +126,7 @@ theorem stack_slice_dated (cs : CS) (scalar : Bool) (x0 : Slab × Int × Rat × 
     (hr : rest ≠ []) (hsorted : List.Pairwise (· < ·) ((x0 :: rest).map (·.2.1))) (i : Nat) (hi : i < (x0 :: rest).length) :
     ∃ s, stack ((x0 :: rest).map (datedG cs scalar)) = .ok s ∧
       s.timeSlice (i : Int) = .ok ⟨cs, false, scalar, [((x0 :: rest)[i]).1],
-        [some ((((x0 :: rest)[i]).2.1 - x0.2.2.2 : Int) : Rat)], [some ((x0 :: rest)[i]).2.1], some x0.2.2.2⟩ :=
+        [some (secondsBetween ((x0 :: rest)[i]).2.1 x0.2.2.2)], [some ((x0 :: rest)[i]).2.1], some x0.2.2.2⟩ :=
   stack_slice_datedG cs scalar x0 rest hr hsorted i hi
 
 /-- … hence, when all images share ONE reference date `r` and carry the times `date − r` (what the constructor derives
@@ -134,7 +134,7 @@ when `reference_date=r` is passed), slicing the stacked series returns every ori
 and reference date: the sentence as written. -/
 theorem stack_slice_shared_reference (cs : CS) (scalar : Bool) (r : Int) (x0 : Slab × Int × Rat × Int)
     (rest : List (Slab × Int × Rat × Int)) (hr : rest ≠ [])
-    (hshared : ∀ x ∈ x0 :: rest, x.2.2.2 = r ∧ x.2.2.1 = ((x.2.1 - r : Int) : Rat))
+    (hshared : ∀ x ∈ x0 :: rest, x.2.2.2 = r ∧ x.2.2.1 = secondsBetween x.2.1 r)
     (hsorted : List.Pairwise (· < ·) ((x0 :: rest).map (·.2.1))) (i : Nat) (hi : i < (x0 :: rest).length) :
     ∃ s, stack ((x0 :: rest).map (datedG cs scalar)) = .ok s ∧
       s.timeSlice (i : Int) = .ok (datedG cs scalar ((x0 :: rest)[i])) := by
@@ -152,7 +152,7 @@ theorem stack_slice_dates (cs : CS) (scalar : Bool) (x0 : Slab × Int) (rest : L
     (hsorted : List.Pairwise (· < ·) ((x0 :: rest).map (·.2))) (i : Nat) (hi : i < (x0 :: rest).length) :
     ∃ s, stack ((x0 :: rest).map (dated cs scalar)) = .ok s ∧
       s.timeSlice (i : Int) = .ok ⟨cs, false, scalar, [((x0 :: rest)[i]).1],
-        [some ((((x0 :: rest)[i]).2 - x0.2 : Int) : Rat)], [some ((x0 :: rest)[i]).2], some x0.2⟩ :=
+        [some (secondsBetween ((x0 :: rest)[i]).2 x0.2)], [some ((x0 :: rest)[i]).2], some x0.2⟩ :=
   stack_slice_dates' cs scalar x0 rest hr hsorted i hi
 
 def exCSa : CS := ⟨.d2, [1, 1], [1, 1], [0, 1]⟩
@@ -241,15 +241,15 @@ theorem stack_slice_data (imgs : List ImgA) (s s' : ImgA) (h : stackA imgs = .ok
 
 /-! non-vacuity: dated images appended with offset 0 keep their stored times [0, 0] (the date
 differences would be [0, 60]); with no offset the times are derived from the dates. -/
-example : ((dated exCSa true (⟨0, 0, []⟩, 100)).append (dated exCSa true (⟨1, 0, []⟩, 160)) (some 0)).toOption.map (·.time) =
+example : ((dated exCSa true (⟨0, 0, []⟩, 100000000)).append (dated exCSa true (⟨1, 0, []⟩, 160000000)) (some 0)).toOption.map (·.time) =
     some [some 0, some 0] := by decide +kernel
-example : ((dated exCSa true (⟨0, 0, []⟩, 100)).append (dated exCSa true (⟨1, 0, []⟩, 160)) none).toOption.map (·.time) =
+example : ((dated exCSa true (⟨0, 0, []⟩, 100000000)).append (dated exCSa true (⟨1, 0, []⟩, 160000000)) none).toOption.map (·.time) =
     some [some 0, some 60] := by decide +kernel
 
 /-! non-vacuity: a 2-D 4×6 series of three slabs with dates; a four-step program runs and is non-empty;
 the hypotheses of `root_placed` hold for it. -/
 def exCS : CS := ⟨.d2, [4, 6], [2, 3], [10, 12]⟩
-def exRoot : Except Err Img := mkRoot 0 exCS true true 3 none [some 0, some 10, some 25]
+def exRoot : Except Err Img := mkRoot 0 exCS true true 3 none [some 0, some 10000000, some 90025500000]
 def exProg : List Step :=
   [.sub [(some 1, none), (none, some (-1))], .tinterval (some 1, none), .subVox [[0, 1], [5, 9]], .tslice (-1)]
 
@@ -258,15 +258,15 @@ example : ((exRoot.toOption.bind fun r => r.runOk exProg).map fun im => im.cs.sh
 example : ((exRoot.toOption.bind fun r => r.runOk exProg).map fun im => im.cs.origin) = some [21 / 2, 23 / 2] := by
   decide +kernel
 example : ((exRoot.toOption.bind fun r => r.runOk exProg).map fun im => (im.time, im.date)) =
-    some ([some 25], [some 25]) := by decide +kernel
+    some ([some (180051 / 2)], [some 90025500000]) := by decide +kernel
 example : ((exRoot.toOption.bind fun r => r.runOk exProg).map fun im => im.slabs.map (·.idx)) =
     some [[[1, 2, 3], [1, 2, 3, 4]]] := by decide +kernel
-example : exRoot.toOption.map (fun r => (r.time, r.date.length)) = some ([some 0, some 10, some 25], 3) := by
+example : exRoot.toOption.map (fun r => (r.time, r.date.length)) = some ([some 0, some 10, some (180051 / 2)], 3) := by
   decide +kernel
 
 /-! non-vacuity: a vector-valued 2-D series; program sub → tinterval → tslice; entry (·, (1,2), 1) of the
 result is root entry (time 2, voxel (2,2), component 1). -/
-def exRootA : Except Err ImgA := mkRootA 7 exCS true false 3 [2, 2] none [some 0, some 10, some 25]
+def exRootA : Except Err ImgA := mkRootA 7 exCS true false 3 [2, 2] none [some 0, some 10000000, some 90025500000]
 example : ((exRootA.toOption.bind fun r => r.runOk [.sub [(some 1, none), (none, some (-1))], .tinterval (some 1, none), .tslice (-1)]).map
     fun im => im.data 0 [1, 2] [1, 0]) = some ⟨7, 2, [2, 2], [1, 0]⟩ := by decide +kernel
 
